@@ -123,7 +123,9 @@ def _eval_single(cases):
             Bc = _bc(case, A.dtype)
             got = np.asarray(getattr(mh, op)(Al, Bc))
             g = [int(x) for x in got.ravel(order='C').tolist()]
-            regular = _symmetric_star(case)
+            regular = drv['regular'] == '1'     # the proved-sound checkers starShapedB && symNbB of the Lean model
+            if regular != _symmetric_star(case):
+                f.append(dict(kind='model', key='regular-check-disagrees', detail=dict(lean=regular)))
             if regular and g != spec:
                 bad = [i for i, (a, b) in enumerate(zip(g, spec)) if a != b]
                 f.append(dict(kind='property', key=f'{op}:{cls}', detail=dict(pixels=bad[:8], got=g, spec=spec)))
@@ -141,7 +143,7 @@ def _eval_single(cases):
             Bc = _bc(case, bool)
             got = np.asarray(mh.close_holes(Al, Bc))
             g = [int(x) for x in got.ravel(order='C').tolist()]
-            regular = _symmetric_star(case)
+            regular = drv['regular'] == '1'     # symNbB of the Lean model (the theorem needs no more; the spec is undirected)
             if regular and g != spec:
                 bad = [i for i, (a, b) in enumerate(zip(g, spec)) if a != b]
                 f.append(dict(kind='property', key=f'close_holes:{cls}', detail=dict(pixels=bad[:8], got=g, spec=spec)))
